@@ -88,6 +88,48 @@ def mutate_residue(atoms, rng):
     return out
 
 
+def build_same_type_mutant(rng):
+    """2-5 models of a cut-out in which one GLU (GLN) is, in one of the models, the mutant of the same group type
+    (ASP, ASN): two different residues - different labels, model pKa values - with one group type on one
+    chain and number. Returns (records, description) or (None, None)."""
+    for _ in range(20):
+        base = sources.random_small_structure(rng, 60, 500)
+        base = [r for r in base if r.raw is not None or r.alt in (" ", "A")]
+        base = [(_blank_alt(r) if r.raw is None else r) for r in base]
+        rl = sources.residue_list(base)
+        cand = [i for i, r in enumerate(rl) if r.key[0] == "ATOM  " and r.key[4] in ("GLU", "GLU", "GLN")
+                and {"CB", "CG", "CD"} <= {a.aname() for a in r.atoms}]
+        if cand:
+            break
+    else:
+        return None, None
+    i_ = rng.choice(cand)
+    k = rng.choice((2, 3, 5))
+    which = rng.randrange(1, k + 1)
+    out = []
+    for m in range(1, k + 1):
+        out.append(pdbio.raw("MODEL     %4d" % m))
+        first = True
+        for i, res in enumerate(rl):
+            if res.ter_before and not first:
+                out.append(pdbio.raw("TER"))
+            first = False
+            atoms = res.atoms
+            if i == i_ and m == which:
+                # force the same-type branch of mutate_residue
+                for _try in range(20):
+                    mut = mutate_residue(atoms, rng)
+                    if mut and mut[0].resn in ("ASP", "ASN"):
+                        atoms = mut
+                        break
+            for a in atoms:
+                if m > 1 and a.aname() not in ("N", "CA", "C", "O"):
+                    a = jitter(a, rng)
+                out.append(a)
+        out.append(pdbio.raw("ENDMDL"))
+    return out, {"mode": "models", "k": k, "events": ["same-type-mutant-in-model-%d-of-%d" % (which, k)]}
+
+
 def build(rng, base=None):
     """Returns (records, description). Modes: models / altloc, with jitter, deletions, mutants."""
     base = base if base is not None else sources.random_small_structure(rng, 60, 500)
@@ -121,6 +163,20 @@ def build(rng, base=None):
             if pools:
                 equal_size = rng.sample(rng.choice(pools), k)
                 desc["events"].append("different-residue-of-equal-size-missing-in-each-model")
+        # a group that only the later models have: the terminal oxygen of a chain end (preferably of an ASP / GLU,
+        # whose side chain holds a group of the same type on the same residue) is absent from model 1
+        late_oxt = None
+        if equal_size is None and rng.random() < 0.2:
+            ends = [i for n_, i in enumerate(prot) if (n_ + 1 == len(prot) or rl[prot[n_ + 1]].ter_before or prot[n_ + 1] != i + 1)
+                    and {"C", "CA", "O"} <= {a.aname() for a in rl[i].atoms}]
+            pref = [i for i in ends if rl[i].key[4] in ("ASP", "GLU")] or ends
+            if pref:
+                i_ = rng.choice(pref)
+                have = [a for a in rl[i_].atoms if a.aname() in ("OXT", "O''")]
+                oxt = have[0] if have else sources.add_oxt(rl[i_].atoms)
+                if oxt is not None:
+                    late_oxt = (i_, oxt)
+                    desc["events"].append("terminal-oxygen-only-in-later-models")
         for m in range(1, k + 1):
             out.append(pdbio.raw("MODEL     %4d" % m))
             kill_res, mutate, kill_atoms = set(), set(), 0.0
@@ -151,6 +207,8 @@ def build(rng, base=None):
                 atoms = res.atoms
                 if i in mutate:
                     atoms = mutate_residue(atoms, rng) or atoms
+                if late_oxt is not None and i == late_oxt[0] and i not in mutate:
+                    atoms = [a for a in atoms if a.aname() not in ("OXT", "O''")] + ([late_oxt[1]] if m > 1 else [])
                 for a in atoms:
                     if kill_atoms and rng.random() < kill_atoms:
                         continue
